@@ -41,12 +41,15 @@ const POOL: &[&str] = &[
     // same bucket, masks that differ in exactly one bit the existing pairs do not cover
     // empty patterns (match everything) next to token-less partners with the same mask
     "*$image", "$image", "/a*b$image", "/a$image", "a^$image", "/a.b|$image",
+    // removeparam rules that differ only in the case of the parameter name (names are compared
+    // exactly), or only in the name
+    "*$removeparam=Q", "*$removeparam=r", "adv$removeparam=Q",
     "advice$script,document", "adv$document", "adv$1p", "advert$~script", "adv$xhr", "advert$websocket", "advice$font,script",
 ];
 
 fn requests() -> Vec<Req> {
     let mut out = vec![];
-    let paths = ["/", "/adv", "/advert", "/advice", "/adv/x", "/advx", "/adv1", "/ADV", "/xadv", "/adv?q=1", "/advert?q=1&r=2", "/advice/", "/adv.js", "/x/advert/y", "/advertx", "/ad", "/a", "/a.b", "/a.b/", "/xa", "/a1b.c", "/a1b", "/a1b/x", "/a1b.c/x", "/adv/top", "/adv/side", "/r?u=https://x.com/a1c", "/r?u=https://x.com/a1b"];
+    let paths = ["/", "/adv", "/advert", "/advice", "/adv/x", "/advx", "/adv1", "/ADV", "/xadv", "/adv?q=1", "/advert?q=1&r=2", "/adv?Q=1&q=2", "/x?Q=1", "/advice/", "/adv.js", "/x/advert/y", "/advertx", "/ad", "/a", "/a.b", "/a.b/", "/xa", "/a1b.c", "/a1b", "/a1b/x", "/a1b.c/x", "/adv/top", "/adv/side", "/r?u=https://x.com/a1c", "/r?u=https://x.com/a1b"];
     for host in ["x.com", "adv.net", "sub.adv.net"] {
         for p in paths {
             for (src, ty) in [("https://x.com/", "script"), ("https://y.com/", "script"), ("https://x.com/", "image"), ("https://y.com/", "subdocument"), ("", "document")] {
